@@ -82,4 +82,42 @@ func set.DeleteAll$1
   requires rheld((*s).applyMutex) && unlocked((*s).readableSet.SerializableOrderedMap.OrderedMap.mutex)
   modifies everything
   ensures rheld((*s).applyMutex)
+
+-- Apply / Compute / Replace are atomic with respect to each other: everything they do to the set - including
+-- the call of Compute's mutation factory - happens inside one write section of applyMutex
+func set.Apply
+  opt sequential
+  requires s != nil && mutations != nil && s.readableSet != nil && s.readableSet.SerializableOrderedMap != nil && s.readableSet.SerializableOrderedMap.OrderedMap != nil
+  requires unlocked(s.applyMutex) && unlocked(s.readableSet.SerializableOrderedMap.OrderedMap.mutex)
+  modifies everything
+  ensures unlocked(s.applyMutex)
+
+func set.Compute
+  opt sequential
+  requires s != nil && s.readableSet != nil && s.readableSet.SerializableOrderedMap != nil && s.readableSet.SerializableOrderedMap.OrderedMap != nil
+  requires unlocked(s.applyMutex) && unlocked(s.readableSet.SerializableOrderedMap.OrderedMap.mutex)
+  callback mutationFactory(rs) (m)
+    requires held(s.applyMutex)                   -- the factory sees the set inside the write section
+    ensures m != nil
+  modifies everything
+  ensures unlocked(s.applyMutex)
+
+func set.apply
+  opt sequential
+  requires s != nil && mutations != nil && s.readableSet != nil && s.readableSet.SerializableOrderedMap != nil && s.readableSet.SerializableOrderedMap.OrderedMap != nil
+  requires held(s.applyMutex) && unlocked(s.readableSet.SerializableOrderedMap.OrderedMap.mutex)
+  modifies everything
+  ensures held(s.applyMutex)
+func set.apply$1
+  opt sequential
+  requires s != nil && *s != nil && (*s).readableSet != nil && (*s).readableSet.SerializableOrderedMap != nil && (*s).readableSet.SerializableOrderedMap.OrderedMap != nil && addedElements != nil && *addedElements != nil
+  requires held((*s).applyMutex) && unlocked((*s).readableSet.SerializableOrderedMap.OrderedMap.mutex)
+  modifies everything
+  ensures held((*s).applyMutex)
+func set.apply$2
+  opt sequential
+  requires s != nil && *s != nil && (*s).readableSet != nil && (*s).readableSet.SerializableOrderedMap != nil && (*s).readableSet.SerializableOrderedMap.OrderedMap != nil && removedElements != nil && *removedElements != nil
+  requires held((*s).applyMutex) && unlocked((*s).readableSet.SerializableOrderedMap.OrderedMap.mutex)
+  modifies everything
+  ensures held((*s).applyMutex)
 @*/
